@@ -32,6 +32,7 @@ type Store struct {
 	initial  map[uint][]byte
 	Ops      []StoreOp
 	failNext map[byte]int // kind → number of upcoming operations to fail
+	failNth  map[byte]int // kind → the n-th upcoming operation fails
 	parkNext map[byte]int
 	parked   int
 	release  int
@@ -75,11 +76,27 @@ func (s *Store) gate(kind byte) bool {
 		s.unparks++
 		s.w.log(Event{Kind: EvUnpark, Str: "store-" + string(kind)})
 	}
+	if n := s.failNth[kind]; n > 0 {
+		s.failNth[kind] = n - 1
+		if n == 1 {
+			return true
+		}
+	}
 	if s.failNext[kind] > 0 {
 		s.failNext[kind]--
 		return true
 	}
 	return false
+}
+
+// FailNth makes the n-th next operation of the kind fail without effect (n from 1).
+func (s *Store) FailNth(kind byte, n int) {
+	s.w.mu.Lock()
+	if s.failNth == nil {
+		s.failNth = map[byte]int{}
+	}
+	s.failNth[kind] = n
+	s.w.mu.Unlock()
 }
 
 func (s *Store) record(op StoreOp) {
@@ -199,6 +216,7 @@ func (s *Store) FailNext(kind byte) {
 func (s *Store) ClearFaults() {
 	s.w.mu.Lock()
 	s.failNext = map[byte]int{}
+	s.failNth = map[byte]int{}
 	s.parkNext = map[byte]int{}
 	s.w.mu.Unlock()
 }
